@@ -69,7 +69,8 @@ static const char *kname[] = { "Init", "Call", "In", "InW", "Inc", "EmpIn", "Fil
 typedef struct { char kind[3]; long a, b; } lop_t;
 
 static qt_barrier_t      *B;           /* the object the session talks about (kept after its destruction for display) */
-static int                alive, gm, uaf;
+static volatile int       alive;
+static int                gm, uaf;
 static int                N, E;
 static volatile int       st[MAXT], ep[MAXT], retflag[MAXT], retmin[MAXT];
 static volatile aligned_t callsv[MAXT];
@@ -81,6 +82,11 @@ static unsigned           wd_secs = 20;
 static void              *deferred[MAXOPS];
 static int                ndeferred;
 static int                joined = 1;
+static int                mode;        /* 0 baton, 1 free-running (random yields before every access, no controller) */
+static int                pdestroy;    /* free-running: participant 0 destroys the barrier right after its last return */
+static unsigned           rstate[MAXT];
+static int                yield_den;
+static volatile int       fr_bad, fr_t, fr_k, fr_min;
 
 static int who(void)
 {
@@ -105,6 +111,13 @@ static void sp_done(int me, int next)
     real_fill(&ctl);
 }
 
+static void perturb(int me)
+{
+    if (yield_den <= 0) return;
+    rstate[me] = rstate[me] * 1103515245u + 12345u;
+    if (((rstate[me] >> 16) % (unsigned)yield_den) == 0) real_yield_(0);
+}
+
 static int on_barrier(const void *a)
 {
     return B && (const char *)a >= (const char *)B && (const char *)a < (const char *)B + sizeof(struct qt_barrier_s);
@@ -112,7 +125,7 @@ static int on_barrier(const void *a)
 
 static void touch(int me, const void *a)
 {
-    if (me != LIFE && !alive && on_barrier(a)) uaf++;       /* a participant's access to the freed object */
+    if (me != LIFE && !alive && on_barrier(a)) __sync_fetch_and_add(&uaf, 1);   /* a participant's access to the freed object */
 }
 
 static int gate_kind(const aligned_t *a, int kin, int kout)
@@ -126,6 +139,7 @@ static aligned_t v_incr(aligned_t *addr, int64_t v)
 {
     int me = who();
     if (me < 0) return real_incr(addr, v);
+    if (mode) { perturb(me); touch(me, addr); return real_incr(addr, v); }
     sp(me, (B && addr == &B->blockers) ? (v == 1 ? K_INC : (v == -1 ? K_DEC : K_UNK)) : K_UNK);
     touch(me, addr);
     aligned_t r = real_incr(addr, v);
@@ -137,6 +151,7 @@ static int v_empty(const aligned_t *a)
 {
     int me = who();
     if (me < 0) return real_empty(a);
+    if (mode) { perturb(me); touch(me, a); return real_empty(a); }
     sp(me, gate_kind(a, K_EMPIN, K_EMPOUT));
     touch(me, a);
     int r = real_empty(a);
@@ -148,6 +163,7 @@ static int v_fill(const aligned_t *a)
 {
     int me = who();
     if (me < 0) return real_fill(a);
+    if (mode) { perturb(me); touch(me, a); return real_fill(a); }
     int k = (me == LIFE) ? gate_kind(a, K_DFILLIN, K_DFILLOUT) : gate_kind(a, K_FILLIN, K_FILLOUT);
     sp(me, k);
     touch(me, a);
@@ -162,6 +178,7 @@ static int v_readFF(aligned_t *dest, const aligned_t *src)
 {
     int me = who();
     if (me < 0) return real_readFF(dest, src);
+    if (mode) { perturb(me); touch(me, src); return real_readFF(dest, src); }
     int k = gate_kind(src, K_IN, K_OUT);
     sp(me, k);
     touch(me, src);
@@ -179,7 +196,7 @@ static int v_readFF(aligned_t *dest, const aligned_t *src)
 static void v_yield_(int k)
 {
     int me = who();
-    if (me != LIFE) { real_yield_(k); return; }
+    if (me != LIFE || mode) { real_yield_(k); return; }
     sp(me, K_DYIELD);
     sp_done(me, K_RUN);
 }
@@ -187,10 +204,10 @@ static void v_yield_(int k)
 static void v_mpool_free(qt_mpool pool, void *mem)
 {
     int me = who();
-    if (me == LIFE) sp(me, K_DFREE);
-    if (mem == (void *)B) alive = 0;
+    if (me == LIFE && !mode) sp(me, K_DFREE);
+    if (mem == (void *)B) { alive = 0; __sync_synchronize(); }
     if (ndeferred < MAXOPS) deferred[ndeferred++] = mem; else real_mpool_free(pool, mem);
-    if (me == LIFE) sp_done(me, K_RUN);
+    if (me == LIFE && !mode) sp_done(me, K_RUN);
 }
 
 static int min_calls(void)
@@ -204,9 +221,9 @@ static aligned_t participant(void *arg)
 {
     int me = (int)(intptr_t)arg;
     for (int k = 1; k <= E; k++) {
-        sp(me, K_CALL);
+        if (!mode) sp(me, K_CALL); else perturb(me);
         __sync_fetch_and_add(&callsv[me], 1);
-        sp_done(me, K_RUN);
+        if (!mode) sp_done(me, K_RUN);
         if (gm) qt_global_barrier();
         else if (me & 1) qt_barrier_enter_id(B, (size_t)me);
         else qt_barrier_enter(B);
@@ -214,10 +231,16 @@ static aligned_t participant(void *arg)
         ep[me]     = k;
         retmin[me] = m;
         retflag[me] = 1;
+        if (mode && m < k) {
+            if (__sync_fetch_and_add(&fr_bad, 1) == 0) { fr_t = me; fr_k = k; fr_min = m; }
+        }
+    }
+    if (mode && pdestroy && me == 0) {     /* the usual pattern: "I am back from my last enter, I destroy the barrier" */
+        if (gm) qt_global_barrier_destroy(); else qt_barrier_destroy(B);
     }
     __sync_synchronize();
     st[me] = K_DONE;
-    real_fill(&ctl);
+    if (!mode) real_fill(&ctl);
     return 0;
 }
 
@@ -297,7 +320,7 @@ int main(void)
                 if (c2) o->b = atol(c2 + 1);
             }
             { char *p = bar2 + 1, *e; for (;;) { long r = strtol(p, &e, 10); if (e == p) break; p = e; if (nr < (1 << 14)) rs[nr++] = (int)r; } }
-            N = 0; E = 0; B = NULL; alive = 0; uaf = 0; turn = -1; ndeferred = 0; joined = 1;
+            N = 0; E = 0; B = NULL; alive = 0; uaf = 0; turn = -1; ndeferred = 0; joined = 1; mode = 0; yield_den = 0;
             st[LIFE] = K_NEXT;
             real_empty(&ctl);
             real_empty(&go[LIFE]);
@@ -392,6 +415,51 @@ int main(void)
                 fflush(stdout);
                 _exit(0);      /* blocked tasks are left behind: one session per process from here on */
             }
+        } else if (line[0] == 'F') {
+            /* F <gm> <pdestroy> <seed> <yield_den> | e:<n>:<E> [r:<m> e:..]...   free-running groups, joined in between, then destroy
+             * (by main after the join, or by participant 0 right after its last return when pdestroy).
+             * -> "FR <early returns> <t> <k> <min> <short episodes> <blockers> <uaf>" */
+            unsigned seed;
+            char    *bar1 = strchr(line, '|');
+            if (!bar1) { printf("ERR\n"); fflush(stdout); continue; }
+            *bar1 = 0;
+            sscanf(line + 1, "%d %d %u %d", &gm, &pdestroy, &seed, &yield_den);
+            mode = 1; fr_bad = 0; fr_t = fr_k = fr_min = 0; uaf = 0; ndeferred = 0; B = NULL; alive = 0;
+            for (int j = 0; j < MAXT; j++) rstate[j] = seed * 2654435761u + (unsigned)j * 40503u + 1u;
+            alarm(wd_secs);
+            int short_ep = 0, first = 1, want_pd = pdestroy;
+            char *save = NULL;
+            /* pdestroy applies to the LAST group only */
+            int ngroups = 0;
+            for (char *q = bar1 + 1; *q; q++) if (*q == 'e' && q[1] == ':') ngroups++;
+            int gi = 0;
+            for (char *p = strtok_r(bar1 + 1, " \n", &save); p; p = strtok_r(NULL, " \n", &save)) {
+                long a = 0, b = 0;
+                char *c1 = strchr(p, ':'), *c2 = c1 ? strchr(c1 + 1, ':') : NULL;
+                if (c1) a = atol(c1 + 1);
+                if (c2) b = atol(c2 + 1);
+                if (p[0] == 'r') { if (gm) qt_global_barrier_resize((size_t)a); else qt_barrier_resize(B, (size_t)a); }
+                else if (p[0] == 'e') {
+                    gi++;
+                    if (first) {
+                        if (gm) { qt_global_barrier_init((size_t)a, 0); set_B(global_barrier); }
+                        else set_B(qt_barrier_create((size_t)a, REGION_BARRIER));
+                        first = 0;
+                    }
+                    N = (int)a; E = (int)b;
+                    pdestroy = (want_pd && gi == ngroups);
+                    for (int j = 0; j < N; j++) { st[j] = K_INIT; ep[j] = 0; callsv[j] = 0; }
+                    __sync_synchronize();
+                    for (int j = 0; j < N; j++) qthread_fork_to(participant, (void *)(intptr_t)j, &rets[j], (qthread_shepherd_id_t)(j % nsheps));
+                    for (int j = 0; j < N; j++) qthread_readFF(NULL, &rets[j]);
+                    for (int j = 0; j < N; j++) if (ep[j] != E) short_ep++;
+                }
+            }
+            if (!want_pd && B) { if (gm) qt_global_barrier_destroy(); else qt_barrier_destroy(B); }
+            alarm(0);
+            printf("FR %d %d %d %d %d %ld %d\n", fr_bad, fr_t, fr_k, fr_min, short_ep, B ? (long)B->blockers : 0L, uaf);
+            for (int j = 0; j < ndeferred; j++) real_mpool_free(fbp.pool, deferred[j]);
+            global_barrier = NULL; B = NULL; alive = 0; mode = 0; pdestroy = 0; N = 0;
         } else if (line[0] == 'Q') break;
         fflush(stdout);
     }
